@@ -48,6 +48,12 @@ pub broadcast group world_axioms { shared_moved_refl, shared_moved_trans, shared
 pub open spec fn others_ran(pre: &World, post: &World) -> bool {
     post.lc == pre.lc && post.trace == pre.trace && post.cells =~= pre.cells && shared_moved(sh(pre), sh(post))
 }
+// a panic where the statement promises a value instead (units with `panics forbidden`: the join closures, C06/C17)
+#[verifier::external_body]
+pub fn vpanic_forbidden<T>() -> (r: T)
+    requires false,                                                                                                       // @ob no-panic-where-a-value-is-promised C06,C17
+    ensures false
+{ unimplemented!() }
 pub fn vdrop<T>(t: T) { }      // `drop(e)` (rule D5)
 #[verifier::external_body]
 pub fn vpanic<T>() -> (r: T) ensures false { unimplemented!() }
